@@ -1,7 +1,7 @@
 let () =
   let argv = Array.to_list Sys.argv in
   let rec opts = function
-    | "--thr" :: v :: r -> D_static.thr := int_of_string v; opts r
+    | "--thr" :: v :: r -> D_static.thr := int_of_string v; D_dynamic.thr := int_of_string v; opts r
     | "--max-n" :: v :: r -> D_spec.max_n := int_of_string v; opts r
     | _ :: r -> opts r
     | [] -> ()
@@ -12,4 +12,5 @@ let () =
   | _ :: "static" :: path :: _ -> D_static.run path
   | _ :: "spec" :: path :: _ -> D_spec.run path
   | _ :: "dynspec" :: path :: _ -> D_dynspec.run path
+  | _ :: "dynamic" :: path :: _ -> D_dynamic.run path
   | _ -> prerr_endline "usage: driver <mode> <cases-file> [--thr N]"; exit 2
